@@ -17,7 +17,11 @@
 //! and prints its own R/S/O lines; vp-check diffs those against this trace.
 #![allow(clippy::all)]
 use chewing::conversion::{ChewingEngine, FuzzyChewingEngine, SimpleEngine};
-use chewing::dictionary::{Dictionary, Layered, LookupStrategy, Phrase, TrieBuf};
+use chewing::dictionary::{Dictionary, DictionaryBuilder, Layered, LookupStrategy, Phrase, Trie, TrieBuf, TrieBuilder};
+use chewing_capi::candidates::{chewing_cand_choose_by_index, chewing_cand_close, chewing_cand_open};
+use chewing_capi::input::*;
+use chewing_capi::layout::chewing_set_KBType;
+use chewing_capi::setup::{chewing_Reset, chewing_delete, chewing_new2, ChewingContext};
 use chewing::editor::keyboard::{KeyCode, KeyEvent, KeyboardLayout, Modifiers, Qwerty};
 use chewing::editor::verif_hooks::take_conversion_log;
 use chewing::editor::zhuyin_layout::{DaiChien26, Et, Et26, GinYieh, Hsu, Ibm, KeyBehavior, Pinyin, Standard, SyllableEditor};
@@ -69,6 +73,9 @@ struct CaseSetup {
     /// the phonetic layout the editor starts with (numbers of Model/Layout.v: 0 Standard, 1 Hsu, 2 IBM, 3 Gin-Yieh,
     /// 4 ET, 5 ET26, 6 DaChen26, 7 Hanyu, 8 THL, 9 MPS2)
     layout: u8,
+    /// the case is executed through a ChewingContext: key entry, candidate calls, KB type, selection keys and reset go
+    /// through the C entry points (capi/src/io.rs), the editor behind the context is observed through the hook
+    capi: bool,
 }
 
 fn new_layout(l: u8) -> Box<dyn SyllableEditor> {
@@ -108,6 +115,21 @@ enum Op {
     Get(usize),
     /// Editor::set_syllable_editor (chewing_set_KBType): a fresh syllable editor of this layout
     Layout(u8),
+    // ---- C entry points (capi cases only) ----
+    /// the named chewing_handle_* entry points: key code, modifier mask (1 shift, 4 caps lock)
+    CKey(u8, u8),
+    CDefault(i32),
+    CCtrlNum(i32),
+    CNumlock(i32),
+    KbType(i32),
+    SelKey([i32; 10]),
+    CChoose(i32),
+    COpen,
+    CClose,
+    CCommit,
+    CCleanPre,
+    CCleanBopo,
+    CReset,
 }
 
 fn op_line(op: &Op) -> String {
@@ -133,6 +155,19 @@ fn op_line(op: &Op) -> String {
         Op::Unlearn(k, t) => format!("unlearn {}|{}", key_str(k), cps(t)),
         Op::Get(n) => format!("get {}", n),
         Op::Layout(l) => format!("layout {}", l),
+        Op::CKey(c, m) => format!("ckey {} {}", c, m),
+        Op::CDefault(k) => format!("cdefault {}", k),
+        Op::CCtrlNum(k) => format!("cctrlnum {}", k),
+        Op::CNumlock(k) => format!("cnumlock {}", k),
+        Op::KbType(k) => format!("kbtype {}", k),
+        Op::SelKey(ks) => format!("selkey {}", ks.iter().map(|k| k.to_string()).collect::<Vec<_>>().join(",")),
+        Op::CChoose(i) => format!("cchoose {}", i),
+        Op::COpen => "copen".into(),
+        Op::CClose => "cclose".into(),
+        Op::CCommit => "ccommit".into(),
+        Op::CCleanPre => "ccleanpre".into(),
+        Op::CCleanBopo => "ccleanbopo".into(),
+        Op::CReset => "creset".into(),
     }
 }
 
@@ -160,6 +195,24 @@ fn parse_op(l: &str) -> Op {
         "engine" => Op::Engine(rest[0].parse().unwrap()),
         "get" => Op::Get(rest[0].parse().unwrap()),
         "layout" => Op::Layout(rest[0].parse().unwrap()),
+        "ckey" => Op::CKey(rest[0].parse().unwrap(), rest[1].parse().unwrap()),
+        "cdefault" => Op::CDefault(rest[0].parse().unwrap()),
+        "cctrlnum" => Op::CCtrlNum(rest[0].parse().unwrap()),
+        "cnumlock" => Op::CNumlock(rest[0].parse().unwrap()),
+        "kbtype" => Op::KbType(rest[0].parse().unwrap()),
+        "selkey" => {
+            let v: Vec<i32> = rest[0].split(',').map(|x| x.parse().unwrap()).collect();
+            let mut a = [0i32; 10];
+            a.copy_from_slice(&v[..10]);
+            Op::SelKey(a)
+        }
+        "cchoose" => Op::CChoose(rest[0].parse().unwrap()),
+        "copen" => Op::COpen,
+        "cclose" => Op::CClose,
+        "ccommit" => Op::CCommit,
+        "ccleanpre" => Op::CCleanPre,
+        "ccleanbopo" => Op::CCleanBopo,
+        "creset" => Op::CReset,
         "clearsyl" => Op::ClearSyl,
         "jnext" => Op::JNext,
         "jprev" => Op::JPrev,
@@ -323,7 +376,157 @@ fn apply(ed: &mut Editor, op: &Op) -> String {
             ed.set_syllable_editor(new_layout(*l));
             "-".into()
         }
+        _ => apply_c(op),
     }
+}
+
+/// the C entry points, on the context of the current capi case (the editor reference handed to `apply` points into
+/// that context; it is not touched while the C function runs)
+fn apply_c(op: &Op) -> String {
+    let c = CUR_CTX.with(|c| c.get());
+    if c.is_null() {
+        return "NOCTX".into();
+    }
+    unsafe {
+        match op {
+            Op::CKey(code, mods) => {
+                let rc = match (ALL_CODES[(*code as usize) % 63], *mods) {
+                    (Space, 0) => chewing_handle_Space(c),
+                    (Space, 1) => chewing_handle_ShiftSpace(c),
+                    (Esc, _) => chewing_handle_Esc(c),
+                    (Enter, _) => chewing_handle_Enter(c),
+                    (Del, _) => chewing_handle_Del(c),
+                    (Backspace, _) => chewing_handle_Backspace(c),
+                    (Tab, _) => chewing_handle_Tab(c),
+                    (Left, 1) => chewing_handle_ShiftLeft(c),
+                    (Left, _) => chewing_handle_Left(c),
+                    (Right, 1) => chewing_handle_ShiftRight(c),
+                    (Right, _) => chewing_handle_Right(c),
+                    (Up, _) => chewing_handle_Up(c),
+                    (Down, _) => chewing_handle_Down(c),
+                    (Home, _) => chewing_handle_Home(c),
+                    (End, _) => chewing_handle_End(c),
+                    (PageUp, _) => chewing_handle_PageUp(c),
+                    (PageDown, _) => chewing_handle_PageDown(c),
+                    (Unknown, 4) => chewing_handle_Capslock(c),
+                    _ => -99,
+                };
+                format!("{}", rc)
+            }
+            Op::CDefault(k) => format!("{}", chewing_handle_Default(c, *k)),
+            Op::CCtrlNum(k) => format!("{}", chewing_handle_CtrlNum(c, *k)),
+            Op::CNumlock(k) => format!("{}", chewing_handle_Numlock(c, *k)),
+            Op::KbType(k) => format!("{}", chewing_set_KBType(c, *k)),
+            Op::SelKey(ks) => {
+                chewing_capi::candidates::chewing_set_selKey(c, ks.as_ptr(), 10);
+                "-".into()
+            }
+            Op::CChoose(i) => format!("{}", chewing_cand_choose_by_index(c, *i)),
+            Op::COpen => format!("{}", chewing_cand_open(c)),
+            Op::CClose => format!("{}", chewing_cand_close(c)),
+            Op::CCommit => format!("{}", chewing_capi::output::chewing_commit_preedit_buf(c)),
+            Op::CCleanPre => format!("{}", chewing_capi::output::chewing_clean_preedit_buf(c)),
+            Op::CCleanBopo => format!("{}", chewing_capi::output::chewing_clean_bopomofo_buf(c)),
+            Op::CReset => {
+                chewing_Reset(c);
+                "-".into()
+            }
+            _ => "?".into(),
+        }
+    }
+}
+
+/// an editor of its own, or the editor behind a ChewingContext (capi cases)
+struct Holder {
+    own: Option<Editor>,
+    ctx: *mut ChewingContext,
+}
+
+impl Holder {
+    fn ed(&mut self) -> &mut Editor {
+        if self.ctx.is_null() {
+            self.own.as_mut().unwrap()
+        } else {
+            unsafe { chewing_capi::verif::verif_editor_mut(self.ctx).unwrap() }
+        }
+    }
+}
+
+impl Drop for Holder {
+    fn drop(&mut self) {
+        if !self.ctx.is_null() {
+            CUR_CTX.with(|c| c.set(std::ptr::null_mut()));
+            unsafe { chewing_delete(self.ctx) };
+        }
+    }
+}
+
+fn build_trie_file(entries: &[Entry], path: &std::path::Path) {
+    let mut b = TrieBuilder::new();
+    for e in entries {
+        let _ = b.insert(&e.key, (e.text.as_str(), e.freq).into());
+    }
+    let _ = std::fs::remove_file(path);
+    b.build(path).expect("build trie");
+}
+
+/// capi cases: the system dictionary is a trie FILE (tsi.dat; word.dat is empty), whose lookups answer in leaf order;
+/// the setup lists the entries of every key in that order (the model keeps the order it is given)
+fn trie_order(entries: &[Entry], scratch: &std::path::Path) -> Vec<Entry> {
+    let p = scratch.join("order.dat");
+    let mut uniq: Vec<Entry> = vec![];
+    for e in entries {
+        if !uniq.iter().any(|u| u.key == e.key && u.text == e.text) {
+            uniq.push(e.clone());
+        }
+    }
+    build_trie_file(&uniq, &p);
+    let t = Trie::open(&p).expect("open trie");
+    let mut out: Vec<Entry> = vec![];
+    for e in &uniq {
+        if out.iter().any(|o| o.key == e.key) {
+            continue;
+        }
+        for ph in t.lookup_all_phrases(&e.key, LookupStrategy::Standard) {
+            out.push(Entry { key: e.key.clone(), text: ph.as_str().to_string(), freq: ph.freq(), time: 0 });
+        }
+    }
+    let _ = std::fs::remove_file(&p);
+    out
+}
+
+fn build_holder(setup: &CaseSetup, scratch: &std::path::Path) -> Holder {
+    if !setup.capi {
+        return Holder { own: Some(build_editor(setup, scratch)), ctx: std::ptr::null_mut() };
+    }
+    let sys = scratch.join("capisys");
+    let _ = std::fs::remove_dir_all(&sys);
+    std::fs::create_dir_all(&sys).unwrap();
+    build_trie_file(&[], &sys.join("word.dat"));
+    build_trie_file(&setup.sys, &sys.join("tsi.dat"));
+    let mut f = std::fs::File::create(sys.join("swkb.dat")).unwrap();
+    for (c, e) in &setup.abbr {
+        writeln!(f, "{} {}", c, e).unwrap();
+    }
+    drop(f);
+    let mut symtxt = String::new();
+    for (name, tab) in &setup.symsel {
+        match tab {
+            Some(t) => {
+                let _ = writeln!(symtxt, "{}={}", name, t);
+            }
+            None => {
+                let _ = writeln!(symtxt, "{}", name);
+            }
+        }
+    }
+    std::fs::write(sys.join("symbols.dat"), symtxt).unwrap();
+    let s = std::ffi::CString::new(sys.to_str().unwrap()).unwrap();
+    let u = std::ffi::CString::new(":memory:").unwrap();
+    let ctx = unsafe { chewing_new2(s.as_ptr(), u.as_ptr(), None, std::ptr::null_mut()) };
+    assert!(!ctx.is_null(), "chewing_new2 failed");
+    CUR_CTX.with(|c| c.set(ctx));
+    Holder { own: None, ctx }
 }
 
 // ---------------------------------------------------------------- C17: queries, reset twin
@@ -343,13 +546,14 @@ thread_local! {
     static CUR_SETUP: std::cell::RefCell<Option<CaseSetup>> = const { std::cell::RefCell::new(None) };
     static CUR_ENGINE: std::cell::Cell<u8> = const { std::cell::Cell::new(1) };
     static CUR_LAYOUT: std::cell::Cell<u8> = const { std::cell::Cell::new(0) };
+    static CUR_CTX: std::cell::Cell<*mut ChewingContext> = const { std::cell::Cell::new(std::ptr::null_mut()) };
 }
 
 fn begin_case(setup: &CaseSetup, sparse: bool) {
     SPARSE.with(|c| c.set(sparse));
     TWIN.with(|t| *t.borrow_mut() = None);
     QTWIN.with(|t| *t.borrow_mut() = None);
-    QSTATE.with(|c| c.set(0));
+    QSTATE.with(|c| c.set(if setup.capi { 2 } else { 0 }));
     CUR_SETUP.with(|c| *c.borrow_mut() = Some(setup.clone()));
     CUR_ENGINE.with(|c| c.set(1));
     CUR_LAYOUT.with(|c| c.set(setup.layout));
@@ -423,6 +627,9 @@ fn twin_after(ed: &mut Editor, op: &Op, out: &mut String) {
         } else {
             let _ = writeln!(out, "T MISMATCH reset={} fresh={}", a.replace(' ', "_"), b.replace(' ', "_"));
         }
+    }
+    if matches!(op, Op::Clear) && !CUR_CTX.with(|c| c.get()).is_null() {
+        return;
     }
     if matches!(op, Op::Clear) {
         // fresh editor: same system dictionary and tables, the user dictionary as it is now, same options and engine
@@ -549,6 +756,9 @@ fn observe(ed: &mut Editor, out: &mut String) {
 
 fn write_setup(n: usize, s: &CaseSetup, out: &mut String) {
     let _ = writeln!(out, "CASE {}", n);
+    if s.capi {
+        let _ = writeln!(out, "CAPI");
+    }
     for e in &s.sys {
         let _ = writeln!(out, "SYS {}|{}|{}", key_str(&e.key), cps(&e.text), e.freq);
     }
@@ -810,7 +1020,7 @@ fn gen_setup_l(rng: &mut Rng, layout: u8) -> (CaseSetup, World) {
         vec![]
     };
     let lifetime = rng.below(100);
-    (CaseSetup { sys, usr, abbr, symsel, lifetime, layout }, World { syls, keys, no_word, chain })
+    (CaseSetup { sys, usr, abbr, symsel, lifetime, layout, capi: false }, World { syls, keys, no_word, chain })
 }
 
 fn key_op(code: KeyCode, mods: Modifiers) -> Op {
@@ -818,15 +1028,98 @@ fn key_op(code: KeyCode, mods: Modifiers) -> Op {
     Op::Key { idx_of: code as u8, code: code as u8, uni: ev.unicode as u32, shift: mods.shift, ctrl: mods.ctrl, caps: mods.capslock, num: mods.numlock }
 }
 
+/// the C call that stands for an editor operation in a capi case (operations without a C counterpart in the modelled
+/// glue - options, engine, user phrases, queries - stay calls on the editor behind the context)
+fn to_c_op(op: Op, rng: &mut Rng) -> Op {
+    // KB numbers of the C API by phonetic layout number (Model/Layout.v numbering): several keyboards share a layout
+    const KB_OF_LAYOUT: [&[i32]; 10] = [&[0, 6, 12, 13, 14, 15, 16], &[1, 7], &[2], &[3], &[4], &[5], &[8], &[9], &[10], &[11]];
+    match op {
+        Op::Key { code, uni, shift, ctrl, caps, num, .. } => {
+            let kc = ALL_CODES[(code as usize) % 63];
+            let named = matches!(kc, Esc | Enter | Del | Backspace | Tab | Left | Right | Up | Down | Home | End | PageUp | PageDown);
+            if code == 0 && caps {
+                Op::CKey(0, 4)
+            } else if named && !ctrl {
+                Op::CKey(code, if shift && matches!(kc, Left | Right) { 1 } else { 0 })
+            } else if kc == Space && shift {
+                Op::CKey(code, 1)
+            } else if kc == Space && !ctrl {
+                if rng.chance(1, 2) { Op::CKey(code, 0) } else { Op::CDefault(32) }
+            } else if (1..=48).contains(&code) {
+                // a character key: the character the event carries (its shifted form under Shift), as an int
+                let ch = if uni < 128 { uni as i32 } else { Qwerty.map_with_mod(kc, Modifiers { shift, ..Modifiers::default() }).unicode as i32 };
+                if ctrl && (1..=10).contains(&code) {
+                    Op::CCtrlNum(b'0' as i32 + (code as i32 % 10))
+                } else if num {
+                    Op::CNumlock(ch)
+                } else if rng.chance(1, 40) {
+                    // any int: `key as u8`
+                    Op::CDefault(ch + 256 * (rng.below(5) as i32 - 2))
+                } else {
+                    Op::CDefault(ch)
+                }
+            } else {
+                Op::CDefault(*rng.pick(&[0, 7, 13, 27, 127, 128, 200, 255, 256, -1, 300, 65]))
+            }
+        }
+        Op::Select(n) => Op::CChoose(if rng.chance(1, 30) { -1 - n as i32 } else { n as i32 }),
+        Op::Start => Op::COpen,
+        Op::Cancel => Op::CClose,
+        Op::Commit => Op::CCommit,
+        Op::Clear => {
+            if rng.chance(1, 3) { Op::CCleanPre } else { Op::CReset }
+        }
+        Op::ClearSyl => Op::CCleanBopo,
+        Op::Layout(l) => {
+            if rng.chance(1, 12) {
+                Op::KbType(*rng.pick(&[-1, 17, 18, 255, 256, 300, 1 << 20]))
+            } else {
+                Op::KbType(*rng.pick(KB_OF_LAYOUT[(l as usize) % 10]))
+            }
+        }
+        // the fuzzy lookup of a trie FILE answers in the file's own order over many keys: capi cases stay with the
+        // standard lookup (the fuzzy engine is exercised by the other cases, on TrieBuf dictionaries)
+        Op::Opts(mut o) => {
+            o[11] = 0;
+            if o[12] == 2 {
+                o[12] = 1;
+            }
+            Op::Opts(o)
+        }
+        Op::Engine(k) => Op::Engine(if k == 2 { 1 } else { k }),
+        Op::Ack if rng.chance(1, 2) => {
+            // new selection keys now and then (ten ASCII characters)
+            let sets: [&[u8; 10]; 3] = [b"asdfghjkl;", b"1234567890", b"aoeuhtnsid"];
+            let k = *rng.pick(&sets);
+            let mut a = [0i32; 10];
+            for (i, b) in k.iter().enumerate() {
+                a[i] = *b as i32;
+            }
+            Op::SelKey(a)
+        }
+        other => other,
+    }
+}
+
 fn gen_case(rng: &mut Rng, n: usize, tier: &str, scratch: &std::path::Path, out: &mut String, stats: &mut Stats) {
     // two cases in five run under another phonetic layout than the default one (the syllables of the case's world
     // are ones that layout can enter); the layout can also be switched in the middle of a history
     let layout = if rng.chance(3, 5) { 0 } else { 1 + rng.below(9) as u8 };
-    let (setup, world) = gen_setup_l(rng, layout);
+    let (mut setup, world) = gen_setup_l(rng, layout);
+    // one case in five is executed through a ChewingContext (the C entry points for key entry, candidate calls, KB type,
+    // selection keys, reset); its system dictionary is a trie file, its user dictionary starts empty
+    if layout == 0 && rng.chance(1, 3) {
+        setup.capi = true;
+        setup.usr.clear();
+        setup.lifetime = 0;
+        setup.sys = trie_order(&setup.sys, scratch);
+    }
+    let capi = setup.capi;
     let sparse = rng.chance(1, 3);
     begin_case(&setup, sparse);
     write_setup(n, &setup, out);
-    let mut ed = build_editor(&setup, scratch);
+    let mut holder = build_holder(&setup, scratch);
+    let mut ed = holder.ed();
     let max_ops = if tier == "thorough" { 40 + rng.below(160) } else { 20 + rng.below(50) } as usize;
     // initial configuration
     let mut o = opts_vec(&ed.editor_options());
@@ -1267,6 +1560,19 @@ fn gen_case(rng: &mut Rng, n: usize, tier: &str, scratch: &std::path::Path, out:
                 num: rng.chance(1, 6),
             });
         }
+        let mut ops: Vec<Op> = if capi { ops.into_iter().map(|o| to_c_op(o, rng)).collect() } else { ops };
+        if capi && rng.chance(1, 8) {
+            // context calls at any moment: keyboard type by number (valid and not), selection keys, list open / close
+            let extra = match rng.below(6) {
+                0 | 1 => Op::KbType(rng.below(17) as i32),
+                2 => Op::KbType(*rng.pick(&[-1, 17, 200, 255, 256, 1000])),
+                3 => to_c_op(Op::Ack, rng),
+                4 => Op::COpen,
+                _ => Op::CClose,
+            };
+            let at = rng.below(ops.len() as u64 + 1) as usize;
+            ops.insert(at, extra);
+        }
         for op in ops {
             stats.ops += 1;
             *stats.kinds.entry(op_line(&op).split_whitespace().next().unwrap().to_string()).or_insert(0) += 1;
@@ -1342,7 +1648,7 @@ fn run(case_file: &str, out_path: &str) -> i32 {
     std::fs::create_dir_all(&scratch).unwrap();
     let mut out = String::new();
     let mut setup: Option<CaseSetup> = None;
-    let mut ed: Option<Editor> = None;
+    let mut ed: Option<Holder> = None;
     let mut n = 0usize;
     let mut dead = false;
     let mut sparse = false;
@@ -1351,7 +1657,7 @@ fn run(case_file: &str, out_path: &str) -> i32 {
         match tag {
             "CASE" => {
                 n = rest.trim().parse().unwrap_or(0);
-                setup = Some(CaseSetup { sys: vec![], usr: vec![], abbr: vec![], symsel: vec![], lifetime: 0, layout: 0 });
+                setup = Some(CaseSetup { sys: vec![], usr: vec![], abbr: vec![], symsel: vec![], lifetime: 0, layout: 0, capi: false });
                 ed = None;
                 dead = false;
                 sparse = false;
@@ -1375,19 +1681,21 @@ fn run(case_file: &str, out_path: &str) -> i32 {
             }
             "MODE" => sparse = rest.trim() == "sparse",
             "LAYOUT" => setup.as_mut().unwrap().layout = rest.trim().parse().unwrap(),
+            "CAPI" => setup.as_mut().unwrap().capi = true,
             "INIT" => {
                 let s = setup.as_mut().unwrap();
                 s.lifetime = rest.trim().parse().unwrap();
                 begin_case(s, sparse);
                 write_setup(n, s, &mut out);
-                ed = Some(build_editor(s, &scratch));
+                ed = None;
+                ed = Some(build_holder(s, &scratch));
             }
             "OP" => {
                 if dead {
                     continue;
                 }
                 let op = parse_op(rest);
-                if !step(ed.as_mut().unwrap(), &op, &mut out) {
+                if !step(ed.as_mut().unwrap().ed(), &op, &mut out) {
                     dead = true;
                 }
             }
@@ -1562,6 +1870,7 @@ fn sweep_c18(out_path: &str) -> i32 {
         symsel: vec![],
         lifetime: 0,
         layout: 0,
+        capi: false,
     };
     let none = Modifiers::default();
     let mut n = 0usize;
